@@ -62,6 +62,21 @@ def gen_cases(ctx):
                   "snd r1 ++ snd r2 ++ input (fst r2) ++ output (fst r2)"
                   % (fcorr.coq_list(num), fcorr.coq_list(den), fcorr.coq_list(us[:zat - 1]), fcorr.coq_list(us[zat - 1:])))
         cases.append((cl, ce, ("tf", nn, nd, zat, num, den, us, integer)))
+    # directed: the whole history at the bottom of the range (integer data times a power of two such that every exact value is a
+    # subnormal or barely normal number, coefficients in {-1,0,1}: nothing is rounded) - "realise their difference equations
+    # exactly" holds there too, and a flush of small values to zero shows as a wrong output
+    for k in range(12 if ctx.quick else 120):
+        nn, nd = r.choice([1, 2, 3]), r.choice([0, 1, 2, 3])
+        num = [float(r.choice([-1, 1, 1, 2, -2, 0])) for _ in range(nn)]
+        den = [float(r.choice([-1, 0, 1, 1])) for _ in range(nd)]
+        scale = 2.0 ** r.choice([-1074, -1070, -1060, -1040, -1030, -1022])
+        nu = r.choice([2, 5, 9])
+        us = [r.randint(-3, 3) * scale for _ in range(nu)]
+        us[0] = scale
+        cl = "tf %x %x %x " % (nn, nd, 0) + " ".join(fcorr.argbits(v) for v in num + den + us)
+        ce = ("let r := tf_run F64_ops (tf_init F64_ops %s %s) %s in snd r ++ input (fst r) ++ output (fst r)"
+              % (fcorr.coq_list(num), fcorr.coq_list(den), fcorr.coq_list(us)))
+        cases.append((cl, ce, ("tf", nn, nd, 0, num, den, us, "tiny")))
     for k in range(n):
         alpha = r.choice([0.0, 1.0, 0.5, r.random(), r.random(), r.random() * 1e-3])
         xs = [fcorr.rand_double(r, "m") for _ in range(r.choice([1, 3, 10, 40]))]
@@ -82,6 +97,9 @@ def gen_cases(ctx):
             fc = 10.0 ** efc * r.uniform(1, 9.99)
             ts = 10.0 ** (e - efc) * r.uniform(0.1, 1)
             grid.append((fc, ts))
+    # directed: both ends of the range of positive arguments ("the generators map positive fc and ts into [0,1]")
+    ends = [5e-324, 1e-310, 2.2250738585072014e-308, 1e-300, 1e-150, 1.0, 1e150, 1e300, 1.7976931348623157e308]
+    grid += [(a, b) for a in ends for b in ends]
     for fc, ts in grid:
         cases.append(("gen %s %s" % (fcorr.argbits(fc), fcorr.argbits(ts)),
                       "[lpf_gen F64_ops %s %s; hpf_gen F64_ops %s %s]" % (fcorr.coqf(fc), fcorr.coqf(ts), fcorr.coqf(fc), fcorr.coqf(ts)),
@@ -96,6 +114,7 @@ def oracle(meta, out):
         ys = out[:len(us)]
         if not integer or any(v != v or abs(v) == float("inf") for v in out):
             return None
+        tiny = integer == "tiny"
         # exact reference recurrence (dyadic data: every C operation must have been exact or correctly rounded; compare with tolerance 0
         # when everything stayed small, else relative 1e-9)
         N, D = [Fraction(v) for v in num], [Fraction(v) for v in den]
@@ -108,7 +127,7 @@ def oracle(meta, out):
             hy.insert(0, y)
             ref.append(y)
         for k, (e, o) in enumerate(zip(ref, ys)):
-            if abs(Fraction(o) - e) > Fraction(1, 10 ** 9) * max(abs(e), 1):
+            if (Fraction(o) != e) if tiny else (abs(Fraction(o) - e) > Fraction(1, 10 ** 9) * max(abs(e), 1)):
                 return "a_tf_iter output %d is %r, difference equation gives %s" % (k, o, float(e))
         lines = out[len(us):]
         exp_in = [float(x) for x in (hu + [0] * nn)[:nn]]
@@ -116,7 +135,7 @@ def oracle(meta, out):
         if [Fraction(v) for v in lines[:nn]] != [Fraction(v) for v in exp_in]:
             return "input delay line is %s, expected most-recent-first %s" % (lines[:nn], exp_in)
         for o, e in zip(lines[nn:], exp_out):
-            if abs(Fraction(o) - e) > Fraction(1, 10 ** 9) * max(abs(e), 1):
+            if (Fraction(o) != e) if tiny else (abs(Fraction(o) - e) > Fraction(1, 10 ** 9) * max(abs(e), 1)):
                 return "output delay line %s differs from most recent outputs" % (lines[nn:],)
         return None
     if kind == "lpf":
